@@ -434,6 +434,26 @@ theorem loca_short_roundtrip (offs : List Nat) (h : ∀ o ∈ offs, o < 0x20000 
     readLoca (offs.flatMap (fun o => be16 ((o / 2 % 65536 : Nat) : Int))) false = some offs := by
   unfold readLoca; simp only [Bool.false_eq_true, ↓reduceIte]; exact chunks2_half offs h
 
+/-- **accepted_simple_le_65535_points.**  `validate` (since `fix:` 006a7c4) rejects what the format
+cannot hold: a simple glyph that `dump_table` / `add_glyph` accept has at most 65535 points and at
+most 65535 instruction bytes, so the `≤ 65535 points` hypothesis of `simple_glyph_roundtrip` is
+implied by acceptance. -/
+theorem accepted_simple_le_65535_points (g : SimpleGlyph) (b : List Nat)
+    (h : writeGlyph (.simple g) = .ok b) :
+    g.contours.flatten.length ≤ 65535 ∧ g.instructions.length < 65535 := by
+  simp only [writeGlyph] at h
+  split at h
+  · cases h
+  · rename_i hv
+    split at h
+    · rename_i bb hw
+      refine ⟨by rw [List.length_flatten]; omega, ?_⟩
+      unfold writeSimple at hw
+      split at hw
+      · cases hw
+      · omega
+    · cases h
+
 /-! ## GlyfLocaBuilder: glyph i of the built tables is the i-th glyph added -/
 
 /-- **build_get_glyf.**  Let `GlyfLocaBuilder` accept a sequence `gs` of simple / composite / empty
@@ -495,15 +515,15 @@ theorem build_get_glyf (gs : List Glyph) (glyf loca : List Nat)
     exact getGlyf_built bs i hi h32
 
 /-- **built_simple_glyph_reads_back.**  The composition, spelled out for simple glyphs: if glyph `i`
-of an accepted sequence is a simple glyph with contours (i16 fields, ≤ 65535 points), then what
+of an accepted sequence is a simple glyph with contours (i16 fields; acceptance itself bounds the
+point count by 65535 since `fix:` 006a7c4), then what
 `get_glyf(i)` returns from the built tables parses to a glyph whose contours (cut by the end points
 from the decoded points), bounding box and instructions are exactly those of the glyph added. -/
 theorem built_simple_glyph_reads_back (gs : List Glyph) (glyf loca : List Nat)
     (hb : build gs = some (glyf, loca)) (h32 : glyf.length < 4294967296)
     (i : Nat) (hi : i < gs.length) (g : SimpleGlyph) (hg : gs[i] = .simple g)
     (hbox : inI16 g.xMin ∧ inI16 g.yMin ∧ inI16 g.xMax ∧ inI16 g.yMax)
-    (hpts : PointsInRange g.contours.flatten) (hmax : g.contours.flatten.length ≤ 65535)
-    (hne : g.contours ≠ []) :
+    (hpts : PointsInRange g.contours.flatten) (hne : g.contours ≠ []) :
     ∃ start data v, getGlyf loca glyf i = .bytes start data ∧ readSimple data = some v ∧
       contoursOf 0 v.endPts v.points = some g.contours ∧
       (v.xMin, v.yMin, v.xMax, v.yMax) = (g.xMin, g.yMin, g.xMax, g.yMax) ∧
@@ -521,7 +541,10 @@ theorem built_simple_glyph_reads_back (gs : List Glyph) (glyf loca : List Nat)
   simp only [writeGlyph] at hwi
   split at hwi
   · cases hwi
-  · split at hwi
+  · rename_i hval
+    have hmax : g.contours.flatten.length ≤ 65535 := by
+      rw [List.length_flatten]; omega
+    split at hwi
     · rename_i b hw
       simp only [WriteResult.ok.injEq] at hwi
       obtain ⟨v, hr, _, hx1, hx2, hx3, hx4, _, hins, _, _, hcont⟩ :=
